@@ -57,6 +57,8 @@ LongestQ(f, inp) ==
   LET g == {n \in 2..Len(inp) : Strong(QSup(f, SubSeq(inp, 1, n)))}
   IN IF g = {} THEN Base(inp) ELSE SubSeq(inp, 1, CHOOSE n \in g : \A k \in g : k <= n)
 ConvOk(fc, v) == CouldReach(fc, v, TRUE)   \* the CONVERGE filter: v may already have been decided in the previous round
+\* a non-candidate CONVERGE value is admitted only with the proof of a PREPARE quorum in the previous round, and only if it may have been decided there
+ConvAdmit(r, fc, v) == JOK("PREPARE", r - 1, v) /\ ConvOk(fc, v)
 PrefixesOf(c) == {SubSeq(c, 1, n) : n \in 1..Len(c)}
 
 Init ==
@@ -121,7 +123,7 @@ ConvWinners(p) ==
        LET vals == {f[s] : s \in DOMAIN f \ {p}} \cup {st[p].prop}
            bestRank(v) == LET rs == {Rank[s][r] : s \in {x \in DOMAIN f \ {p} : f[x] = v}} IN
                           IF rs = {} THEN 1000 ELSE CHOOSE x \in rs : \A y \in rs : x <= y
-           ok(v) == v \in st[p].cands \/ (JOK("PREPARE", r - 1, v) /\ ConvOk(fc, v)) \/ v = st[p].prop
+           ok(v) == v \in st[p].cands \/ ConvAdmit(r, fc, v) \/ v = st[p].prop
            adm == {v \in vals : ok(v) /\ Base(v) = Base(Input[p])}
            w == CHOOSE v \in adm : \A u \in adm : bestRank(v) <= bestRank(u)
        IN {u \in adm : bestRank(u) = bestRank(w)}
